@@ -106,6 +106,33 @@ def o7_ll(values, X, mu, theta, rtol=1e-9):
     return "ok" if bool(np.all(np.abs(v - ll) <= tol)) else "bad"
 
 
+def o7_result(all_values, total, mean, median, X, labels, mus, thetas, rtol=1e-9):
+    """O7 on the RESULT: the per-point values it lists are the Gaussian log-densities of ALL labelled points (as a
+    multiset: sorted and compared pairwise, which finds a matching within the tolerance whenever one exists), and the
+    sum / mean / median it reports are those of exactly these densities."""
+    exp, tol = [], 0.0
+    for k in sorted(set(labels)):
+        idx = [p for p, l in enumerate(labels) if l == k]
+        th = np.asarray(thetas[k], dtype=np.float64)
+        if not np.isfinite(th).all():
+            return "inc"
+        ll, mag, sign = gauss_logpdf(X[idx], mus[k], th)
+        if sign <= 0 or not np.isfinite(ll).all():
+            return "inc"
+        exp.extend(float(v) for v in ll)
+        tol = max(tol, float(np.max(rtol * mag * max(1.0, np.linalg.cond(th) * 1e-7))))
+    v = np.sort(np.asarray(all_values, dtype=np.float64).ravel())
+    e = np.sort(np.asarray(exp, dtype=np.float64))
+    if v.shape != e.shape or not np.isfinite(v).all():
+        return "bad"
+    if not bool(np.all(np.abs(v - e) <= tol)):
+        return "bad"
+    n = len(e)
+    ok = (abs(float(total) - float(np.sum(e))) <= tol * n and abs(float(mean) - float(np.mean(e))) <= tol
+          and abs(float(median) - float(np.median(e))) <= tol)
+    return "ok" if ok else "bad"
+
+
 def floor_eps(mat, eps):
     out = np.array(mat, dtype=np.float64, copy=True)
     n, m = out.shape
